@@ -10,18 +10,20 @@
 //
 // The optional fourth argument run=<i> executes only the run with that index (after the same dry
 // runs), so that a reported line can be re-run on its own.
+//
+// Environment: MPXFAULT_SELFTEST=corrupt makes the c09 proxy flip a bit of byte k instead of cutting
+// (the scenario must then report violations: a self test of its checks); MPXFAULT_DEBUG=1 adds the
+// individual listener registrations to the c20 lines.
 package main
 
 import (
 	"fmt"
 	"os"
-	"sort"
 	"strconv"
 	"strings"
 	"sync"
 	"time"
 
-	"github.com/basecomplextech/baselibrary/async"
 	"github.com/basecomplextech/baselibrary/status"
 	"github.com/basecomplextech/spec/mpx"
 	"verif/harness/internal/caplog"
@@ -244,21 +246,3 @@ func stcode(st status.Status) string {
 	}
 	return c
 }
-
-func sortedKeys[V any](m map[string]V) []string {
-	keys := make([]string, 0, len(m))
-	for k := range m {
-		keys = append(keys, k)
-	}
-	sort.Strings(keys)
-	return keys
-}
-
-func b2i(b bool) int {
-	if b {
-		return 1
-	}
-	return 0
-}
-
-var noCtx = async.NoContext()
